@@ -108,6 +108,7 @@ class Analysis:
     IDENTITY_CALLS = ("<I as core::iter::traits::collect::IntoIterator>::into_iter",)
     REV_NEXT = "<core::iter::adapters::rev::Rev<I> as core::iter::traits::iterator::Iterator>::next"
     ENUM_NEXT = "<core::iter::adapters::enumerate::Enumerate<I> as core::iter::traits::iterator::Iterator>::next"
+    CNT = (("cnt",),)      # synthetic field of an Enumerate iterator: the number of items yielded so far
     LEN_CALLS = ("core::slice::<impl [T]>::len", "core::str::<impl str>::len", "alloc::vec::Vec::<T, A>::len")
     EMPTY_CALLS = ("core::slice::<impl [T]>::is_empty", "core::str::<impl str>::is_empty",
                    "alloc::vec::Vec::<T, A>::is_empty")
@@ -160,6 +161,7 @@ class Analysis:
         self.refroot = {}
         self._immut = None
         self._same_len = None
+        self._ksub = None
         self._deps = None
         self._prescan()
         self.entry = {}
@@ -502,7 +504,7 @@ class Analysis:
             del st.alias[t]
         for d in [d for d, f in st.bf.items() if key_root(f[1]) == l or key_root(f[2]) == l]:
             del st.bf[d]
-        for k in [k for k, v in st.sym.items() if key_root(v[2]) == l]:
+        for k in [k for k, v in st.sym.items() if key_root(v[2]) == l or (v[0] == "ksub" and key_root(v[1]) == l)]:
             del st.sym[k]
         for k in [k for k, v in st.rel.items() if (v[0] in ("cast", "inrange", "satsub") and key_root(v[1]) == l)
                   or (v[0] in ("ordcmp", "orddiscr") and (key_root(v[1]) == l or key_root(v[2]) == l))
@@ -539,6 +541,12 @@ class Analysis:
             del st.sym[k]
         st.rel.pop(l, None)
         self.forget_about(st, l)
+
+    def _succ_le(self, st, lo_k, hi_k):
+        """lo_k < hi_k was established: a counter known to be lo_k + 1 is <= hi_k."""
+        for c_, sy in list(st.sym.items()):
+            if sy[0] == "succ" and sy[2] == lo_k and key_root(c_) not in self.escaped:
+                st.le[c_] = st.le.get(c_, frozenset()) | {hi_k}
 
     def _below_pred(self, st, x, res):
         """res == x - 1 (no wrap): every key known to be strictly below x is <= res."""
@@ -1189,6 +1197,7 @@ class Analysis:
             return
         rng = self.rng[d]
         iv, alias, fact, paths, syms, ubs = None, None, None, {}, {}, {}
+        les, enum_step = {}, None
         ref_len, restore = None, None
         min_le = []
         newrel = None
@@ -1344,8 +1353,12 @@ class Analysis:
         elif name == "core::iter::traits::iterator::Iterator::enumerate" and a0_local is not None \
                 and st.rel.get(a0_local, (None,))[0] == "iterof":
             newrel = ("enumof", st.rel[a0_local][1])
+            paths[self.CNT] = (0, 0)
         elif name in self.IDENTITY_CALLS and a0_local is not None and st.rel.get(a0_local, (None,))[0] in ("iterof", "enumof"):
             newrel = st.rel[a0_local]
+            c_ = st.iv.get(("pl", a0_local, self.CNT))
+            if c_ is not None and a0_local not in self.escaped:
+                paths[self.CNT] = c_
         elif name == self.ENUM_NEXT and a0_local is not None:
             r = self.root_of(a0_local)
             rl = st.rel.get(r[1]) if r is not None and r[0] == "own" and r[1] not in self.escaped else None
@@ -1364,6 +1377,17 @@ class Analysis:
                     if sy_ is not None and sy_[0] == "same":
                         ups.add(sy_[2])   # the slice is exactly that long
                     ubs[(("dc", 1), ("f", 0), ("f", 0))] = frozenset(ups)
+                cntk = ("pl", r[1], self.CNT)
+                c_ = st.iv.get(cntk, TOP_LEN)
+                P_ = (("dc", 1), ("f", 0), ("f", 0))
+                if P_ in paths:
+                    # the index yielded is the number of items yielded before: it inherits what is known about the
+                    # counter (`<= L` established in the previous iteration), then the counter becomes index + 1
+                    m_ = meet(paths[P_], c_)
+                    if m_[0] <= m_[1]:
+                        paths[P_] = m_
+                    les[P_] = frozenset(k_ for k_ in self.uppers(st, cntk)[0] if key_root(k_) not in (d, r[1]))
+                    enum_step = (cntk, (c_[0] + 1, min(c_[1] + 1, TOP_LEN[1])))
         elif name == "core::iter::traits::iterator::Iterator::rev" and a0_local is not None and a0_local not in self.escaped \
                 and self.v.local_ty(d).get("n") == "core::iter::adapters::rev::Rev":
             # Rev { iter: range }
@@ -1432,9 +1456,12 @@ class Analysis:
         elif name is not None and "::index::Index" in name and "for str>" not in name and len(args) == 2 \
                 and a0_local is not None:
             self._same_len = None
+            self._ksub = None
             ref_len, restore = self.index_call(st, name, a0_local, args[1])
             if self._same_len is not None and self._same_len != d:
                 syms[(("len",),)] = ("same", 0, self._same_len)
+            elif self._ksub is not None and key_root(self._ksub[0]) != d and key_root(self._ksub[1]) != d:
+                syms[(("len",),)] = ("ksub", self._ksub[0], self._ksub[1])
         else:
             sm = self.summaries.get(name)
             if sm is not None:
@@ -1510,6 +1537,15 @@ class Analysis:
                     st.sym[("pl", d, p_)] = v
             for p_, v in ubs.items():
                 st.ub[("pl", d, p_)] = v
+            for p_, v in les.items():
+                if v:
+                    st.le[("pl", d, p_)] = v
+            if enum_step is not None:
+                cntk, civ = enum_step
+                st.iv[cntk] = civ
+                st.le.pop(cntk, None)
+                st.ub.pop(cntk, None)
+                st.sym[cntk] = ("succ", 1, ("pl", d, (("dc", 1), ("f", 0), ("f", 0))))
             if lows_from is not None and (("dc", 1), ("f", 0)) in paths:
                 # the start field is "same" as X while the range is untouched and only grows afterwards (forward
                 # iteration) or stays (reverse iteration): remember X <= start as a non-strict relation of the field
@@ -1699,6 +1735,10 @@ class Analysis:
         elif kind in ("range", "from") and s_iv is not None and e_iv is not None:
             lo, hi = max(0, e_iv[0] - s_iv[1]), max(0, e_iv[1] - s_iv[0])
             ref_len = ("iv", (lo, hi))
+            if kind == "from" and lk is not None and lk[0] == "len":
+                sk_ = self.operand_key(st, s_op)
+                if sk_ is not None and not is_c(sk_) and key_root(sk_) not in self.escaped:
+                    self._ksub = (lk, sk_)    # the sub-slice is exactly len(recv) - start long
         restore = None
         sh = st.shadow.get(recv)
         if sh is not None and "IndexMut" in name:
@@ -1902,6 +1942,7 @@ class Analysis:
                 and not (isinstance(hi_k, tuple) and hi_k[0] == "c") \
                 and key_root(lo_k) not in self.escaped and key_root(hi_k) not in self.escaped:
             st.ub[lo_k] = st.ub.get(lo_k, frozenset()) | {hi_k}
+            self._succ_le(st, lo_k, hi_k)
         if op == "Eq" and isinstance(ak, tuple) and isinstance(bk, tuple) and ak[0] == "len" and bk[0] == "len" \
                 and isinstance(ak[1], int) and isinstance(bk[1], int) and ak[1] != bk[1] \
                 and ak[1] not in self.escaped and bk[1] not in self.escaped and ak[1] not in st.alias:
@@ -1978,6 +2019,14 @@ class Analysis:
         bit_len(x) <= c  =>  limb k of x < 2^(c - 64k);  leading_zeros(x) >= c  =>  bit_len(x) <= BITS - c;
         (y as T) as S == y with T unsigned and narrower than S  =>  y in range(T)."""
         cfg = self.v.cfg
+        for key, niv in ((ak, na), (bk, nb)):
+            sy = st.sym.get(key) if not is_c(key) else None
+            if sy is not None and sy[0] == "ksub" and niv[0] >= 1:
+                # a non-empty `&x[s..]`: s < len(x)
+                lk_, sk_ = sy[1], sy[2]
+                if key_root(sk_) not in self.escaped and key_root(lk_) not in self.escaped:
+                    st.ub[sk_] = st.ub.get(sk_, frozenset()) | {lk_}
+                    self._succ_le(st, sk_, lk_)
         for key, niv in ((ak, na), (bk, nb)):
             if not isinstance(key, int):
                 continue
@@ -2210,10 +2259,19 @@ class Analysis:
             return self.uppers(s_, k)[0]      # equal (alias / same) and strictly-less imply less-or-equal
         cand = set(a.le) | set(a.ub) | {k for k, v in a.sym.items() if v[0] == "same"} | \
             {k for k, v in a.alias.items() if isinstance(k, int) and self.rng[k] is not None}
+        def implied(s_, k, x):
+            ik, ix = self.get(s_, k), self.get(s_, x)
+            return ik is not None and ix is not None and ik[1] <= ix[0]
+        cand |= set(b.le)
         for k in cand:
-            w = le_of(a, k) & le_of(b, k)
+            la, lb = le_of(a, k), le_of(b, k)
+            w = set(la & lb)
+            # a bound recorded on one side only survives when the other side's intervals imply it (a counter that is
+            # still 0 on the loop-entry edge is <= any length)
+            w |= {x for x in la - lb if implied(b, k, x)}
+            w |= {x for x in lb - la if implied(a, k, x)}
             w = frozenset(x for x in w if x != k)
-            if w and k not in r.sym and r.alias.get(k) not in w:
+            if w and (k not in r.sym or r.sym[k][0] in ("succ", "ksub")) and r.alias.get(k) not in w:
                 r.le[k] = w
         return r
 
